@@ -2,11 +2,11 @@ package main
 
 import (
 	"fmt"
-	"regexp"
 	"go/ast"
 	"go/constant"
 	"go/token"
 	"go/types"
+	"regexp"
 	"strings"
 )
 
@@ -412,6 +412,11 @@ func (x *Exec) evalPseudo(name string, n *ast.CallExpr, st *State, env *Env) (Va
 		bv := x.c.freshName(vn)
 		body := x.defaultType(x.eval(n.Args[1], st, env.with(vn, Val{T: bv, Ty: tByte}))).T
 		return Val{T: fmt.Sprintf("(exists ((%s (_ BitVec 8))) %s)", bv, body), Ty: tBool}, true
+	case "strupper": // strings.ToUpper as the same uninterpreted function the code's call is modelled by
+		v := x.eval(n.Args[0], st, env)
+		x.c.declare("gs.upper", "(declare-fun gs.upper (Str) Str)")
+		x.c.declare("gs.upper.len", "(assert (forall ((s Str)) (! (= (gs.len (gs.upper s)) (gs.len s)) :pattern ((gs.upper s)))))")
+		return Val{T: app("gs.upper", v.T), Ty: tString}, true
 	case "itoa":
 		v := x.defaultType(x.eval(n.Args[0], st, env))
 		return Val{T: app("gs.itoa", v.T), Ty: tString}, true
@@ -1008,7 +1013,6 @@ func replaceSymbol(t, sym, by string) string {
 	}
 	return b.String()
 }
-
 
 // sum(k, lo, hi, term): Σ term(k) for k in [lo,hi); one-step unfolding at the upper end plus additivity.
 func (x *Exec) evalSum(n *ast.CallExpr, st *State, env *Env) Val {
